@@ -30,7 +30,7 @@ ASSUMPTIONS = [
     "characters (ordinary calls: < 1 ms), or killed by the 20 s CPU supervisor / 2 GiB address-space limit",
     "the recursion counter may legitimately reach recursion_limit + 1 (it is compared with > before the increment)",
 ]
-REQUIRED = {"sweep_calls": 2000, "program_expansions": 500, "functions_reached": 100, "recursion_watermarks": 100,
+REQUIRED = {"expr_calls": 3000, "sweep_calls": 2000, "program_expansions": 500, "functions_reached": 100, "recursion_watermarks": 100,
             "cyclic_universes": 20}
 LEVEL_TEXT = ("Exploration with a bounded-exhaustive part: the function sweep enumerates every registered name x "
               "argument count 0..3 x shape pairs on the real Expander; a boundary monitor, a proportionality monitor "
@@ -48,11 +48,42 @@ SHAPES = ["", "word", "0", "7", "-3", "2.5", "1e3", "1e400", "999999999999", "9e
           "9999999999999999999999999999999999999999"]
 
 
+EXPR_OPERANDS = ["0", "1", "7", "-3", "2.5", "(0-7)", "99999999", "-99999999", "(0-99999999)", "1e7", "-1e7", "1e400",
+                 "0.0000001", "99999999999999999999", "(0-1e9)", "pi", "e", "1e-400", ".5"]
+EXPR_BINARY = ["^", "e", "*", "/", "div", "mod", "+", "-", "round", "<", ">", "<=", ">=", "!=", "<>", "=", "and", "or"]
+EXPR_UNARY = ["-", "+", "not", "abs", "sin", "cos", "asin", "acos", "tan", "atan", "exp", "ln", "ceil", "floor", "trunc"]
+
+
+def expr_texts(rnd, nrandom):
+    """#expr / #ifexpr calls: every operator x every pair of operands, then random 2-3 operator expressions"""
+    for op in EXPR_BINARY:
+        for a, b in itertools.product(EXPR_OPERANDS, repeat=2):
+            yield "{{#expr:%s %s %s}}" % (a, op, b)
+    for op in EXPR_UNARY:
+        for a in EXPR_OPERANDS:
+            yield "{{#expr:%s %s}}" % (op, a)
+            yield "{{#ifexpr:%s %s|y|n}}" % (op, a)
+
+    def term(d):
+        x = rnd.random()
+        if d <= 0 or x < 0.45:
+            return rnd.choice(EXPR_OPERANDS)
+        if x < 0.6:
+            return "%s %s" % (rnd.choice(EXPR_UNARY), term(d - 1))
+        if x < 0.7:
+            return "(%s)" % term(d - 1)
+        return "%s %s %s" % (term(d - 1), rnd.choice(EXPR_BINARY), term(d - 1))
+
+    for _ in range(nrandom):
+        yield "{{#expr:%s}}" % term(3)
+
+
 def plan(tier, seed):
     n = 16
     shards = [{"kind": "sweep", "shard": i, "n": n, "seed": seed, "aliases": 12 if tier == "quick" else 100000,
                "triples": 20 if tier == "quick" else 400}
               for i in range(n)]
+    shards += [{"kind": "expr", "shard": i, "n": 4, "seed": seed, "random": 300 if tier == "quick" else 20000} for i in range(4)]
     shards += [{"kind": "programs", "shard": i, "count": 500 if tier == "quick" else 40000, "seed": seed}
                for i in range(n)]
     return shards
@@ -170,6 +201,11 @@ def discriminator(text):
     """canonical function name of a sweep call (site aliases resolved), upper-cased: a mechanism
     discriminator, not a case id"""
     inner = text[2:]
+    if inner.lower().startswith(("#expr:", "#ifexpr:")):
+        import re
+        ops = sorted(set(re.findall(r"[a-z]+|\^", inner.split(":", 1)[1].split("|")[0].lower())) &
+                     (set(EXPR_BINARY) | set(EXPR_UNARY)) - {"e"})
+        return inner.split(":", 1)[0].upper() + ":" + "+".join(ops)
     name = "?"
     for i, c in enumerate(inner):
         if c in ":|}":
@@ -224,6 +260,15 @@ def run_shard(desc, R):
         R.count("functions_reached", len(reached_before))
         for f in reached_before:
             R.seen("functions", f)
+        return
+    if desc["kind"] == "expr":
+        db = SynthDB({}, "en")
+        for i, text in enumerate(expr_texts(random.Random("C03:expr:%s" % desc["seed"]), desc["random"])):
+            if i % desc["n"] != desc["shard"]:
+                continue
+            ok, res = judge(R, text, db, {}, "en", "sweep")
+            R.count("expr_calls")
+            R.case(h64("en", text), True, sample={"site": "en", "text": text, "result": (res or "")[:80]} if ok else None)
         return
     # programs
     bodies = ["{{%s}}", "{{%s|{{{1}}}}}", "{{{1|%s}}}", "{{#if:{{{1|}}}|{{%s}}|x}}", "{{%s|a=b}}{{%s}}", "{{ %s", "%s }}",
